@@ -16,6 +16,38 @@ def run(ctx):
                               "siblings, the branch that was taken did not go on, a join or task was cancelled without a reason, "
                               "or resolution at submission left a reachable conditional without exactly one resolved child",
                               machine=False)
+    # ---- S-sim-branches: conditionals without a join / with a side output inside a branch, under policies that place ready
+    # tasks `now` (the shared S-sim family keeps such graphs out because planners and the fuzzing policy meet known finding
+    # F42 on them).  A run in which the history signature of known finding F36 occurs (a VIRTUAL child of an overdue
+    # SCHEDULED ancestor is offered and placed early — the only route by which a greedy policy reaches F42) is not judged.
+    import random
+    import simgen
+    from props import c05
+    brng = random.Random("C07-branches/%s" % ctx.seed)
+    bworlds = []
+    while len(bworlds) < (16 if ctx.tier == "quick" else 150):
+        bw = simgen.gen_branch_world(brng)
+        if "zero_runtime" not in simgen.signature(bw) and c05.feasible_world(bw):
+            bworlds.append(bw)
+    bruns = simcommon.run_worlds(bworlds)
+    nfail = nskip = 0
+    for i, (bw, br) in enumerate(zip(bworlds, bruns)):
+        if not br["log"] or br["status"] != "ended":
+            continue
+        f36 = []
+        simmon.mon_c18(br, bw, f36_out=f36)
+        if f36:
+            nskip += 1
+            continue
+        msgs = simmon.mon_c07(br, bw, [])
+        if msgs:
+            nfail += 1
+            if nfail <= 3:
+                ctx.violation("branch_world%d" % i, {"stream": "S-sim-branches monitor", "failures": msgs[:5], "world": bw,
+                                                    "what": "in a graph whose conditional has no join (or a side output inside a branch) the "
+                                                            "branch that was taken did not run to its end, or a task was cancelled without a reason"})
+    ctx.cov["streams"]["S-sim-branches:impl-monitor"] = {"cases": len(bworlds), "failing": nfail,
+                                                         "not_judged_history_signature_of_F36": nskip}
     for k in core.load_known():
         if k.get("status") == "known" and k.get("property") == "C07" and k.get("id") == "F42":
             w = json.load(open(os.path.join(core.ROOT, k["witness"])))
